@@ -379,6 +379,89 @@ func driveLongValues(c *driverCtx, prop string) {
 		}{}),
 		reflect.TypeOf(struct{}{}),
 	}
+	// the same record name with other field types in a later file of the same process (whatever is remembered per
+	// record name must not leak), the record being skipped by the target in all of them
+	{
+		mk := func(xt string) string {
+			return `{"type":"record","name":"Outer","fields":[{"name":"inner","type":{"type":"record","name":"In","fields":[{"name":"x","type":` + xt + `},{"name":"y","type":"string"}]}},{"name":"z","type":"long"}]}`
+		}
+		type evoT struct {
+			Z int64 `json:"z"`
+		}
+		type evoFull struct {
+			Inner struct {
+				X int64  `json:"x"`
+				Y string `json:"y"`
+			} `json:"inner"`
+			Z int64 `json:"z"`
+		}
+		for round, xt := range []string{`"long"`, `"string"`, `"long"`, `{"type":"array","items":"long"}`, `"string"`} {
+			sj := mk(xt)
+			sn, err := schemaNodeFromJSON([]byte(sj))
+			if err != nil {
+				continue
+			}
+			var b []byte
+			switch xt {
+			case `"long"`:
+				b = appendVar(b, int64(1000+round))
+			case `"string"`:
+				b = appendVar(b, 5)
+				b = append(b, "hello"...)
+			default:
+				b = appendVar(b, 2)
+				b = appendVar(b, 7)
+				b = appendVar(b, 8)
+				b = appendVar(b, 0)
+			}
+			b = appendVar(b, 2)
+			b = append(b, "yy"...)
+			b = appendVar(b, int64(50+round))
+			targets := []reflect.Type{reflect.TypeOf(evoT{}), reflect.TypeOf(struct{}{})}
+			if xt == `"long"` {
+				targets = append(targets, reflect.TypeOf(evoFull{}))
+			}
+			for ti, t := range targets {
+				file := buildContainer([]byte(sj), codecs3[round%3], true, []byte("0123456789abcdef"), [][2]any{{2, append(append([]byte{}, b...), b...)}})
+				r := readBack(t, file, readerKinds[(round+ti)%len(readerKinds)], ti%2 == 0, -1, nil)
+				c.rec.NewCase()
+				c.rec.Emit(fmt.Sprintf("%s|same-record-name-other-types|round%d|target%d", prop, round, ti), map[string]any{
+					"op": "rand_read", "mode": prop, "schema": sn, "records": []any{byteList(b), byteList(b)}, "target": projectType(t), "codec": codecs3[round%3],
+					"delivered": orEmpty(r.delivered), "recheck": orEmpty(r.recheck), "err": errString(r.err), "panic": r.panicked})
+			}
+		}
+	}
+	// a union with more than 64 branches: selectors of one and of two bytes, decoded and skipped
+	{
+		var branches []string
+		for i := 0; i < 70; i++ {
+			branches = append(branches, fmt.Sprintf(`{"type":"record","name":"E%d","fields":[{"name":"a","type":"long"}]}`, i))
+		}
+		sj := `{"type":"record","name":"U70","fields":[{"name":"u","type":[` + strings.Join(branches, ",") + `]},{"name":"seq","type":"long"}]}`
+		if sn, err := schemaNodeFromJSON([]byte(sj)); err == nil {
+			type u70T struct {
+				Seq int64 `json:"seq"`
+			}
+			var recs []any
+			var raw []byte
+			for _, br := range []int{3, 63, 64, 65, 69, 0} {
+				var b []byte
+				b = appendVar(b, int64(br))
+				b = appendVar(b, int64(7+br))
+				b = appendVar(b, int64(42+br))
+				recs = append(recs, byteList(b))
+				raw = append(raw, b...)
+			}
+			for ti, t := range []reflect.Type{reflect.TypeOf(u70T{}), reflect.TypeOf(struct{}{})} {
+				file := buildContainer([]byte(sj), codecs3[ti], true, []byte("0123456789abcdef"), [][2]any{{len(recs), raw}})
+				r := readBack(t, file, readerKinds[ti], false, -1, nil)
+				c.rec.NewCase()
+				c.rec.Emit(fmt.Sprintf("%s|union-of-70|target%d", prop, ti), map[string]any{
+					"op": "rand_read", "mode": prop, "schema": sn, "records": recs, "target": projectType(t), "codec": codecs3[ti],
+					"delivered": orEmpty(r.delivered), "recheck": orEmpty(r.recheck), "err": errString(r.err), "panic": r.panicked})
+			}
+		}
+	}
 	// empty values right after non-empty ones of the same kind (whatever a decoder reuses between items must be reset)
 	{
 		const ej = `{"type":"record","name":"EV","fields":[{"name":"mb","type":{"type":"map","values":"bytes"}},{"name":"ab","type":{"type":"array","items":"bytes"}},{"name":"as","type":{"type":"array","items":"string"}},{"name":"ml","type":{"type":"map","values":{"type":"array","items":"long"}}},{"name":"z","type":"long"}]}`
